@@ -579,15 +579,15 @@ func (d *Decoder) newCoderAndShards() (rsec16.Coder, [][]byte, error) {
 		return rsec16.Coder{}, nil, errors.New("no file integrity info")
 	}
 
-	if len(d.parityShards) == 0 {
-		return rsec16.Coder{}, nil, errors.New("no parity shards")
-	}
-
 	var dataShards [][]byte
 	for _, info := range d.fileIntegrityInfos {
 		for _, shardInfo := range info.shardInfos {
 			dataShards = append(dataShards, shardInfo.data)
 		}
+	}
+	if len(d.parityShards) == 0 {
+		// No coder is needed (or possible); see Repair.
+		return rsec16.Coder{}, dataShards, nil
 	}
 	coder, err := rsec16.NewCoderPAR2Vandermonde(len(dataShards), len(d.parityShards), d.numGoroutines)
 	if err != nil {
@@ -673,12 +673,24 @@ func (d *Decoder) Repair(checkParity bool) ([]string, error) {
 		return nil, err
 	}
 
-	err = coder.ReconstructData(dataShards, d.parityShards)
-	if err != nil {
-		return nil, err
+	haveParity := len(d.parityShards) > 0
+	if haveParity {
+		err = coder.ReconstructData(dataShards, d.parityShards)
+		if err != nil {
+			return nil, err
+		}
+	} else {
+		// Without parity shards nothing can be reconstructed,
+		// but files all of whose shards were found (e.g. under
+		// another file's name) can still be put back.
+		for _, shard := range dataShards {
+			if shard == nil {
+				return nil, rsec16.NotEnoughParityShardsError{}
+			}
+		}
 	}
 
-	if checkParity {
+	if checkParity && haveParity {
 		computedParityShards := coder.GenerateParity(dataShards)
 		for i, shard := range d.parityShards {
 			if len(shard) == 0 {
